@@ -1,8 +1,10 @@
 // Live fence connections are clients too: the notifications are their view of the writes, and it
 // must be the order of the log. One connection opens a live geofence; several connections then
 // write in bursts (pipelined packets, so that more than one write is waiting between writeAOF and
-// the fence connection at a time) and one at a time. Oracle (no model): the ids in the notifications
-// = the ids of the logged SETs on that key inside the fence, in the order of appendonly.aof, once.
+// the fence connection at a time) and one at a time; then objects with equal deadlines expire in
+// batches (one expiry pass logs several dels). Oracle (no model): the sequence of (command, id) in
+// the notifications = the sequence of (command, id) of the logged SETs inside the fence and of the
+// logged dels on that key, in the order of appendonly.aof, once.
 package main
 
 import (
@@ -49,7 +51,7 @@ func runLiveOrder(r *hx.Result, cfg hx.Config, rng *rand.Rand) {
 			}
 			if id := gjson.Get(v.Str, "id").String(); id != "" {
 				gmu.Lock()
-				got = append(got, id)
+				got = append(got, gjson.Get(v.Str, "command").String()+" "+id)
 				gmu.Unlock()
 			}
 		}
@@ -112,6 +114,45 @@ func runLiveOrder(r *hx.Result, cfg hx.Config, rng *rand.Rand) {
 		}
 		wg.Wait()
 	}
+	// expiry bursts: several objects with the same deadline, so that one expiry pass deletes several
+	// (every other round a long read holds the shared lock across the deadline, which makes the pass
+	// late and its batch certain); a client DEL in between. Each logged del is owed one "del"
+	// notification carrying ITS id.
+	xrounds, xper := 3, 6
+	if cfg.Tier == "thorough" || cfg.Search {
+		xrounds, xper = 8, 10
+	}
+	for x := 0; x < xrounds && failed == ""; x++ {
+		t0 := time.Now()
+		const life = 300 * time.Millisecond
+		for i := 0; i < xper; i++ {
+			left := life - time.Since(t0)
+			if left < 20*time.Millisecond {
+				left = 20 * time.Millisecond
+			}
+			if v, err := ws[0].Do("SET", "fleet", fmt.Sprintf("x%de%d", x, i), "EX", fmt.Sprintf("%.4f", left.Seconds()), "POINT", "33", "-115"); err != nil || v.String() != "+OK" {
+				failed = fmt.Sprintf("SET EX: %v %v", v.String(), err)
+			}
+			sent++
+			inside += 2 // the set and, later, the del of the expiry pass
+		}
+		if v, err := ws[1].Do("SET", "fleet", fmt.Sprintf("x%dk", x), "POINT", "34", "-116"); err != nil || v.String() != "+OK" {
+			failed = fmt.Sprintf("SET: %v %v", v.String(), err)
+		}
+		if v, err := ws[1].Do("DEL", "fleet", fmt.Sprintf("x%dk", x)); err != nil || v.String() != ":1" {
+			failed = fmt.Sprintf("DEL: %v %v", v.String(), err)
+		}
+		sent += 2
+		inside += 2
+		if x%2 == 0 {
+			time.Sleep(time.Until(t0.Add(life - 60*time.Millisecond)))
+			ws[2].Timeout = 30 * time.Second
+			if v, err := ws[2].Do("EVALRO", "local t = os.clock() while os.clock() - t < 0.5 do end return 'done'", "0"); err != nil || v.Str != "done" {
+				failed = fmt.Sprintf("EVALRO: %v %v", v.String(), err)
+			}
+		}
+		time.Sleep(time.Until(t0.Add(life + 500*time.Millisecond)))
+	}
 	// every acknowledged write inside the fence is owed one notification; wait for them (a loaded
 	// machine may take a while), then a little longer for anything that should not come
 	for dl := time.Now().Add(30 * time.Second); time.Now().Before(dl); time.Sleep(20 * time.Millisecond) {
@@ -138,9 +179,29 @@ func runLiveOrder(r *hx.Result, cfg hx.Config, rng *rand.Rand) {
 		return
 	}
 	var want []string
+	batch, maxBatch := 0, 0
 	for _, e := range aof {
-		if len(e) == 6 && strings.EqualFold(e[0], "SET") && e[1] == "fleet" && !strings.HasPrefix(e[4], "10") {
-			want = append(want, e[2])
+		if len(e) < 3 || e[1] != "fleet" {
+			continue
+		}
+		switch {
+		case strings.EqualFold(e[0], "SET"):
+			batch = 0
+			for i := 3; i+1 < len(e); i++ {
+				if e[i] == "POINT" && !strings.HasPrefix(e[i+1], "10") {
+					want = append(want, "set "+e[2])
+				}
+			}
+		case strings.EqualFold(e[0], "DEL") && len(e) == 3:
+			want = append(want, "del "+e[2])
+			if e[0] == "del" { // written by the expiry pass
+				batch++
+				if batch > maxBatch {
+					maxBatch = batch
+				}
+			} else {
+				batch = 0
+			}
 		}
 	}
 	if len(got) != len(want) {
@@ -153,14 +214,15 @@ func runLiveOrder(r *hx.Result, cfg hx.Config, rng *rand.Rand) {
 					hi = len(want)
 				}
 				r.Fail(hx.Failure{Kind: "oracle", Signature: "live-fence-order-vs-log",
-					What: fmt.Sprintf("%d connections write SET fleet <id> POINT .. (bursts of %d pipelined / one at a time) while one connection holds INTERSECTS fleet FENCE DETECT inside BOUNDS 30 -120 40 -110: notification #%d is for %s, log position #%d (of the writes inside the fence) is %s; log order %v, fence order %v",
-						writers, per, i, got[i], i, want[i], want[lo:hi], got[lo:hi]),
+					What: fmt.Sprintf("%d connections write SET fleet <id> POINT .. (bursts of %d pipelined / one at a time) while one connection holds INTERSECTS fleet FENCE DETECT inside BOUNDS 30 -120 40 -110: then SET fleet x<r>e<i> EX <one deadline> POINT 33 -115 (%d per round, a long EVALRO across the deadline every other round): notification #%d is %q, log position #%d (SETs inside the fence and dels) is %q; log order %q, fence order %q",
+						writers, per, xper, i, got[i], i, want[i], want[lo:hi], got[lo:hi]),
 					Case: map[string]interface{}{"writers": writers, "bursts": bursts, "per_burst": per}})
 				break
 			}
 		}
 	}
-	r.Count(fmt.Sprintf("live fence order: %d writers x %d bursts x %d SETs, %d notifications", writers, bursts, per, len(got)), len(got) > writers*per)
+	r.Count(fmt.Sprintf("live fence order: %d writers x %d bursts x %d SETs, %d expiry rounds x %d, %d notifications", writers, bursts, per, xrounds, xper, len(got)), len(got) > writers*per && maxBatch >= 2)
+	r.Extra["live_fence_largest_expiry_batch"] = maxBatch
 	r.Dist("directed:live-fence-order")
 	r.TracesImpl++
 	r.Sample(1, map[string]interface{}{"directed": "live-fence-order", "writes": sent, "notifications": len(got)})
